@@ -179,7 +179,7 @@ func VH_C10_Layout() {
 	}
 	for n := 0; n < steps; n++ {
 		repo := repos[vh.Choice("repo", 2)]
-		op := vh.Choice("op", 12)
+		op := vh.Choice("op", vh.Param("OPS", 12))
 		sha512 := false
 		if op <= 2 {
 			sha512 = vh.Bool("sha512")
